@@ -15,6 +15,7 @@ import (
 // Replay is the JSON document the engine writes for a counterexample or a validation run.
 type Replay struct {
 	Harness string              `json:"harness"`
+	Tier    string              `json:"tier"`
 	Inputs  map[string][]uint64 `json:"inputs"`
 }
 
@@ -78,6 +79,14 @@ func val(name string, i int) uint64 {
 }
 
 func Symbolic() bool { return false }
+
+// Thorough reports whether the thorough tier's bounds are in force.
+func Thorough() bool {
+	if !loaded {
+		Reset()
+	}
+	return cur.Tier == "thorough"
+}
 
 func Bytes(name string, n int) []byte { return BytesCap(name, n, n) }
 
@@ -278,5 +287,11 @@ func CutNext(name string, lo, hi uint64) {}
 
 // CutValueOr returns the cut variable under the engine and real natively.
 func CutValueOr(name string, real uint64) uint64 { return real }
+
+// Summarize replaces, under the engine, every function whose qualified name ends in
+// suffix by fn (which must have the same parameters, receiver first). The replacement is
+// justified by a separate harness proving the function equal to fn (assume-guarantee).
+// Natively a no-op: the real function runs.
+func Summarize(suffix string, fn any) {}
 
 func OpaqueString() string { return "<opaque>" }
